@@ -93,6 +93,7 @@ def check_structure(ctx, cfg, t, label):
     want_keys = o[ki + 1].split(",") if len(o) > ki + 1 else []
     got_keys = [k for k in t.meta if k in SIGNAL_KEYS_O + SIGNAL_KEYS_R]
     case = {"run": label, "survivors": surv, "columns": list(t.colnames), "integral_keys": got_keys}
+    source_tie(ctx, cfg, t, label, surv)
     if list(t.colnames) != want_cols or got_keys != want_keys:
         # the Lean model describes the documented structure; is the property itself violated?
         ctx.disagree("C14.structure", {**case, "model_columns": want_cols, "model_keys": want_keys})
@@ -512,8 +513,89 @@ def corners(ctx):
             ctx.violation("compute", "raises", f"a run with both channels switched off raises {type(e).__name__}: {str(e)[:100]}", {"run": f"{mode_}/optical off/radio off"})
 
 
+def regen():
+    """source tie: Gen/Src/C14.lean regenerated from compute() of the working tree (harness/orchtrans.py)"""
+    import orchtrans
+    return orchtrans.regen()
+
+
+_ADDED = {}      # id(table) -> the column-name groups handed to Table.add_columns, in call order
+
+
+def source_tie_install():
+    """record, from outside, every Table.add_columns call (the writer's only way of adding columns) per table"""
+    from astropy.table import Table
+    if getattr(Table.add_columns, "_c14_recorder", False):
+        return
+    orig = Table.add_columns
+
+    def add_columns(self, cols, indexes=None, names=None, **kw):
+        if len(self.colnames) == 0:
+            _ADDED[id(self)] = []
+        out = orig(self, cols, indexes=indexes, names=names, **kw)
+        if names is not None and id(self) in _ADDED:
+            _ADDED[id(self)].append([str(n) for n in names])
+        return out
+    add_columns._c14_recorder = True
+    Table.add_columns = add_columns
+
+
+def source_tie(ctx, cfg, t, label, surv):
+    """the writer operations the reader of the source predicts (harness/orchtrans.py) against what the real compute() run did:
+    the column groups recorded call by call from Table.add_columns, and the order of the header keys the run added after the
+    ones written up front.  A difference is a broken tie (ctx.disagree), not by itself a violation."""
+    import orchtrans
+    st = ctx.extra.setdefault("source_tie", {}).setdefault("ops", {"runs_compared": 0, "with_recorded_calls": 0, "differences": []})
+    try:
+        if "_orch" not in ctx.__dict__:
+            ctx._orch = orchtrans.read()
+        d = ctx._orch
+        want = orchtrans.predict(d, cfg.simulation.mode == "Target", bool(cfg.detector.optical.enable), bool(cfg.detector.radio.enable), surv == 0)
+    except Exception as e:  # noqa: BLE001 - the regeneration has already reported it as a broken obligation
+        ctx.disagree("source_tie.ops", {"error": f"{type(e).__name__}: {str(e)[:200]}"})
+        return
+    want_groups = [w[1:].split(",") for w in want if w[0] == "C"]
+    want_keys = [w[1:] for w in want if w[0] == "M"]
+    up_front = set(d["init"]["keys"])
+    got_keys = [k for k in t.meta if k not in up_front and not any(k.startswith(p) for p in d["init"]["prefixes"])]
+    groups = _ADDED.get(id(t))
+    st["runs_compared"] += 1
+    ctx.count("source_tie.runs_compared")
+    bad = {}
+    if groups is not None and [c for g in groups for c in g] == list(t.colnames):
+        st["with_recorded_calls"] += 1
+        if groups != want_groups:
+            bad["add_columns_calls"] = {"recorded_from_the_run": groups, "read_from_the_source": want_groups}
+    elif list(t.colnames) != [c for g in want_groups for c in g]:
+        bad["columns"] = {"table": list(t.colnames), "read_from_the_source": [c for g in want_groups for c in g]}
+    if got_keys != want_keys:
+        bad["header_keys_added"] = {"table": got_keys, "read_from_the_source": want_keys}
+    if bad:
+        bad["run"] = label
+        st["differences"].append(bad)
+        ctx.disagree("source_tie.ops", bad)
+
+
+def source_tie_probe(ctx):
+    """every channel combination of both modes once, small: each run must come back (a run that raises is reported with its
+    configuration instead of cutting the check short) and its recorded writer calls are compared with the reader's account"""
+    for mode_ in ("Diffuse", "Target"):
+        for opt_, rad_ in ((True, True), (True, False), (False, True)):
+            cfgp = make_cfg(mode_, "mono", "none", opt_, rad_, 525.0, 40 if mode_ == "Diffuse" else 300)
+            lab = f"{mode_}/optical {'on' if opt_ else 'off'}/radio {'on' if rad_ else 'off'}"
+            try:
+                tp = run_compute(cfgp, 31, "synchronous")
+            except Exception as e:  # noqa
+                ctx.violation("compute", "raises", f"a {lab} run raises {type(e).__name__}: {str(e)[:100]}", {"run": lab, "seed": 31, "thrown": cfgp.simulation.thrown_events})
+                continue
+            ctx.case(("source-tie-probe", mode_, opt_, rad_)); ctx.count("source_tie.probe_runs")
+            check_structure(ctx, cfgp, tp, lab)
+
+
 def run(ctx: Ctx):
     import dask
+    source_tie_install()
+    source_tie_probe(ctx)
     xp = xproc_launch(ctx)   # (i) children run while the in-process streams do
     corners(ctx)
     target_veto_runs(ctx)    # (h')
